@@ -35,25 +35,20 @@ pub fn any_sketch() -> CountMinSketch {
     kani::assume(logw >= 1 && logw <= 3);
     let width: usize = 1 << logw;
     let nbytes = width / 2;
-    let mut rows: [Vec<u8>; 4] = [Vec::new(), Vec::new(), Vec::new(), Vec::new()];
-    let mut r = 0;
-    while r < 4 {
+    let mk = || {
+        // rows are allocated zeroed (one allocation, no growth) and then overwritten with arbitrary bytes
+        let mut row = CountMinRow::new(nbytes as u64);
         let bytes: [u8; MAXBYTES] = kani::any();
         let mut i = 0;
         while i < MAXBYTES {
             if i < nbytes {
-                rows[r].push(bytes[i]);
+                row.verif_set_byte(i, bytes[i]);
             }
             i += 1;
         }
-        r += 1;
-    }
-    let [r0, r1, r2, r3] = rows;
-    CountMinSketch::verif_from_parts(
-        [CountMinRow::verif_from_bytes(r0), CountMinRow::verif_from_bytes(r1), CountMinRow::verif_from_bytes(r2), CountMinRow::verif_from_bytes(r3)],
-        kani::any(),
-        (width - 1) as u64,
-    )
+        row
+    };
+    CountMinSketch::verif_from_parts([mk(), mk(), mk(), mk()], kani::any(), (width - 1) as u64)
 }
 
 /// pos_r(h) "is whatever the build computes": it is read off the real `increment` run on an all-zero
